@@ -72,7 +72,7 @@ Chain ==
      consts |-> <<>>,
      funcs |-> <<PatternFn("matches_label", PatX)>>]
 
-\* a diamond: the root carries no property (so that the join's constructor is unambiguous)
+\* a diamond of classes: the root carries no property (so that the join's constructor is unambiguous)
 Diamond ==
     [types |-> <<
         Class("Root", <<>>, TRUE, <<>>, <<>>, <<"Root holds">>, <<>>, <<>>),
@@ -82,7 +82,12 @@ Diamond ==
               <<A("right_value", Nm("str"), "")>>, <<>>),
         Class("Join", <<"Left", "Right">>, FALSE, <<P("own_value", Opt(Nm("bool")))>>, <<>>, <<"Join holds">>,
               <<A("left_value", Nm("int"), ""), A("right_value", Nm("str"), ""), A("own_value", Opt(Nm("bool")), "None")>>,
-              <<RefAttr("", "left_value"), RefAttr("Right", "right_value"), RefAttr("Join", "own_value")>>)>>,
+              <<RefAttr("", "left_value"), RefAttr("Right", "right_value"), RefAttr("Join", "own_value")>>),
+        \* ... and a diamond of constrained primitives
+        Cprim("Text", <<"str">>, <<"Text is not empty">>, <<>>),
+        Cprim("Short_text", <<"Text">>, <<"Text is short">>, <<>>),
+        Cprim("Plain_text", <<"Text">>, <<"Text is plain">>, <<RefClass("Text")>>),
+        Cprim("Short_plain_text", <<"Short_text", "Plain_text">>, <<>>, <<>>)>>,
      consts |-> <<[name |-> "Some_constant"], [name |-> "Other_constant"]>>,
      funcs |-> <<ImplFn("is_fine")>>]
 
@@ -119,9 +124,13 @@ FirstDefault(args) == IF \E i \in DOMAIN args : HasDefault(args[i])
                       ELSE 0
 
 Breaks(m) ==
+  LET AM == AncMap(m)                                   \* bound once for all the guards below
+      DescA(x) == {d \in TIdx(m) : x \in AM[d]}
+      RelA(a, b) == a = b \/ a \in AM[b] \/ b \in AM[a]
+  IN
     \* --- R_acyclic
        {B("R_acyclic", "self", k, 0) : k \in HierIdx(m)}
-  \cup {b \in [rule : {"R_acyclic"}, variant : {"back"}, k : TIdx(m), j : TIdx(m)] : b.k \in HierIdx(m) /\ b.j \in Desc(m, b.k)}
+  \cup {b \in [rule : {"R_acyclic"}, variant : {"back"}, k : TIdx(m), j : TIdx(m)] : b.k \in HierIdx(m) /\ b.j \in DescA(b.k)}
     \* --- R_bases_exist
   \cup {B("R_bases_exist", "missing", k, 0) : k \in HierIdx(m)}
   \cup {B("R_bases_exist", "enum", k, e) : k \in ClassIdx(m), e \in EnumIdx(m)}
@@ -138,17 +147,17 @@ Breaks(m) ==
   \cup {B("R_unique_names", "literal", k, 0) : k \in {x \in EnumIdx(m) : m.types[x].literals # <<>>}}
   \cup {b \in [rule : {"R_unique_names"}, variant : {"siblings"}, k : TIdx(m), j : TIdx(m)] :
             \* j and k are unrelated classes with a common descendant; j owns a property, k gets one of that name
-            /\ b.k \in ClassIdx(m) /\ b.j \in ClassIdx(m) /\ ~Related(m, b.k, b.j)
-            /\ m.types[b.j].props # <<>> /\ Desc(m, b.k) \cap Desc(m, b.j) # {}}
+            /\ b.k \in ClassIdx(m) /\ b.j \in ClassIdx(m) /\ ~RelA(b.k, b.j)
+            /\ m.types[b.j].props # <<>> /\ DescA(b.k) \cap DescA(b.j) # {}}
     \* --- R_reserved
   \cup {B("R_reserved", "type", n, 0) : n \in 1..3}
-  \cup {B("R_reserved", "prop", k, n) : k \in {x \in ClassIdx(m) : Desc(m, x) = {}}, n \in 1..2}
+  \cup {B("R_reserved", "prop", k, n) : k \in {x \in ClassIdx(m) : DescA(x) = {}}, n \in 1..2}
   \cup {B("R_reserved", "method", k, n) : k \in ClassIdx(m), n \in 1..2}
   \cup {B("R_reserved", "const", n, 0) : n \in 1..3}
   \cup {B("R_reserved", "func", n, 0) : n \in 1..3}
     \* --- R_no_redeclare
   \cup {b \in [rule : {"R_no_redeclare"}, variant : {"prop", "method"}, k : TIdx(m), j : TIdx(m)] :
-            /\ b.k \in ClassIdx(m) /\ b.j \in Anc(m, b.k) /\ IsClass(m.types[b.j])
+            /\ b.k \in ClassIdx(m) /\ b.j \in AM[b.k] /\ IsClass(m.types[b.j])
             /\ IF b.variant = "prop" THEN m.types[b.j].props # <<>> ELSE m.types[b.j].methods # <<>>}
     \* --- R_ctor_matches_props
   \cup {B("R_ctor_matches_props", "drop", k, 0) : k \in {x \in ClassIdx(m) : m.types[x].args # <<>>}}
@@ -156,11 +165,11 @@ Breaks(m) ==
   \cup {b \in [rule : {"R_ctor_matches_props"}, variant : {"swap"}, k : TIdx(m), j : 1..5] :
             /\ b.k \in ClassIdx(m) /\ b.j + 1 \in DOMAIN m.types[b.k].args
             /\ HasDefault(m.types[b.k].args[b.j]) = HasDefault(m.types[b.k].args[b.j + 1])
-            /\ \E p, q \in AllProps(m, b.k) : /\ p[3] = m.types[b.k].args[b.j].name
-                                              /\ q[3] = m.types[b.k].args[b.j + 1].name /\ PropBefore(m, p, q)}
+            /\ \E p, q \in AllPropsA(m, AM, b.k) : /\ p[3] = m.types[b.k].args[b.j].name
+                                              /\ q[3] = m.types[b.k].args[b.j + 1].name /\ PropBeforeA(AM, p, q)}
   \cup {b \in [rule : {"R_ctor_matches_props"}, variant : {"type"}, k : TIdx(m), j : 1..5] :
             b.k \in ClassIdx(m) /\ b.j \in DOMAIN m.types[b.k].args}
-  \cup {B("R_ctor_matches_props", "no_ctor", k, 0) : k \in {x \in ClassIdx(m) : m.types[x].props # <<>> /\ Desc(m, x) = {}}}
+  \cup {B("R_ctor_matches_props", "no_ctor", k, 0) : k \in {x \in ClassIdx(m) : m.types[x].props # <<>> /\ DescA(x) = {}}}
     \* --- R_optional_default_none
   \cup {B("R_optional_default_none", "no_default", k, 0) :
             k \in {x \in ClassIdx(m) : FirstDefault(m.types[x].args) # 0 /\ m.types[x].args[FirstDefault(m.types[x].args)].type.k = "opt"}}
@@ -174,7 +183,12 @@ Breaks(m) ==
     \* --- R_unique_inv_desc
   \cup {B("R_unique_inv_desc", "own", k, 0) : k \in {x \in HierIdx(m) : m.types[x].invs # <<>>}}
   \cup {b \in [rule : {"R_unique_inv_desc"}, variant : {"inherited"}, k : TIdx(m), j : TIdx(m)] :
-            b.k \in HierIdx(m) /\ b.j \in Anc(m, b.k) /\ m.types[b.j].invs # <<>>}
+            b.k \in HierIdx(m) /\ b.j \in AM[b.k] /\ m.types[b.j].invs # <<>>}
+  \cup {b \in [rule : {"R_unique_inv_desc"}, variant : {"siblings"}, k : TIdx(m), j : TIdx(m)] :
+            \* j and k are unrelated (classes or constrained primitives) with a common descendant; k gets an
+            \* invariant with a description of j: only the common descendants see the conflict
+            /\ b.k \in HierIdx(m) /\ b.j \in HierIdx(m) /\ ~RelA(b.k, b.j)
+            /\ m.types[b.j].invs # <<>> /\ DescA(b.k) \cap DescA(b.j) # {}}
     \* --- R_doc_refs
   \cup {B("R_doc_refs", "class", k, 0) : k \in TIdx(m)}
   \cup {B("R_doc_refs", "attr_own", k, 0) : k \in {x \in TIdx(m) : m.types[x].kind # "cprim"}}
